@@ -19,8 +19,10 @@ Oracle : judged at every on_stop event (the tick in which Stop completes / Resta
          System State; tick by tick) equal those of a fresh Start of the same method (restart:not-from-first-line when the
          first effect differs, restart:differs-from-fresh-start otherwise) up to the next external request.
 Signatures name the mechanism: args-rejected:instance-never-disposed (an instance whose arguments were rejected never
-gets a callback and is never removed), started-after-cancel:command-survives-stop (a command (re-)initialised after the
-Stop/Restart had cancelled the running commands), not-cancelled:<Stop|Restart>:<symptom> (a command that was running
+gets a callback and is never removed), started-after-cancel:<code-issued|user-request>:command-survives-stop (a command
+first initialised after the Stop/Restart - issued by code or requested by the user - had cancelled the running commands),
+restarted-after-cancel:command-survives-stop (an instance id that was cancelled + finalized and then created again by its own
+stale request), not-cancelled:<Stop|Restart>:<symptom> (a command that was running
 before), runlog:not-producible:<exception>; symptoms that merely follow from a leaked instance at the same stop (old
 instance executing in the new run, restart differing from a fresh start) are attributed to that mechanism and counted.
 """
@@ -103,7 +105,7 @@ def oracle(case, tr: C.Trace, ref_eff: list | None = None) -> tuple[list[Violati
     info = {"stops": 0, "restarts": 0, "alive_at_stop": False, "timed_at_stop": False, "sim_at_stop": False,
             "paused_at_stop": False, "holding_at_stop": False, "error_at_stop": False, "overlap_alive": False,
             "restart_compared": 0, "compared_ticks": 0, "derived_suppressed": 0, "uod_in_runlog": 0, "callback_in_begin_tick": False,
-            "stop_kinds": [], "tick_raised": 0}
+            "stop_kinds": [], "deliveries": [], "suppressed_by": [], "leftover_suppressed": [], "tick_raised": 0}
 
     def viol(sig, msg):
         if not any(v.sig == sig for v in out):
@@ -112,6 +114,7 @@ def oracle(case, tr: C.Trace, ref_eff: list | None = None) -> tuple[list[Violati
     insts = C.instances(tr.events, tr)
     runs = C.runs_of(tr)
     seen_ids: list = []
+    leaked_earlier: dict = {}      # instance id -> mechanism under which its leak was reported at the end of an earlier run
     for ri, r in enumerate(runs):
         seen_ids.append(r["run_id"])
         s = r["stop_tick"]
@@ -143,14 +146,25 @@ def oracle(case, tr: C.Trace, ref_eff: list | None = None) -> tuple[list[Violati
         # position at which this Stop/Restart cancelled the running commands (engine.cancel_all_commands, logged by the runner)
         marks = [p for p, ev in enumerate(tr.events[:stop_pos]) if ev[1] == "cancel_all" and p > r["start_pos"]]
         begin_pos = marks[-1] if marks else stop_pos
+        # how this Stop/Restart was delivered (user request vs issued by code: method line, Watch/Alarm body, injected code)
+        delivery = {"user": "user-request", "code": "code-issued"}.get(tr.events[marks[-1]][3], "unknown-delivery") \
+            if marks else "unknown-delivery"
+        info["deliveries"].append(delivery)
 
         def cause(iid) -> str:
+            if iid in leaked_earlier:
+                # held since the end of an earlier run, where it was reported under its mechanism; not judged again here
+                return "leftover-of-earlier-run=" + leaked_earlier[iid]
             it = insts.get(iid)
             if it is None or (not it.init and not it.exec):
                 return "args-rejected"       # an instance object that never got a callback: created, arguments rejected
             began = [p for p, _ in it.init] or [p for p, _ in it.exec]
             if max(began) >= begin_pos:
-                return "started-after-cancel"   # (re-)initialised after Stop/Restart had cancelled the running commands
+                if any(fp < max(began) for fp, _ in it.fin):
+                    # the instance id had a life before: it was cancelled + finalized and then its own, still listed request
+                    # created it again (by-name cancellation in the command manager); independent of how Stop was delivered
+                    return "restarted-after-cancel"
+                return "started-after-cancel"   # first initialised after Stop/Restart had cancelled the running commands
             return "not-cancelled"
 
         symptoms: dict = {}      # mechanism -> {symptom: message}
@@ -235,13 +249,28 @@ def oracle(case, tr: C.Trace, ref_eff: list | None = None) -> tuple[list[Violati
             if mech == "args-rejected":
                 viol("args-rejected:instance-never-disposed", "[%s] %s" % (", ".join(sorted(sy)), sorted(sy.values())[0]))
             elif mech == "started-after-cancel":
-                viol("started-after-cancel:command-survives-stop", "[%s] %s" % (", ".join(sorted(sy)), "; ".join(sy[k] for k in sorted(sy))))
+                # the delivery is part of the mechanism: for a Stop/Restart issued by code the request queue order puts the
+                # Stop ahead of a command the main thread requested in that tick; for a user request it does not
+                viol("started-after-cancel:%s:command-survives-stop" % delivery,
+                     "[%s] (%s %s) %s" % (", ".join(sorted(sy)), delivery, kind, "; ".join(sy[k] for k in sorted(sy))))
+            elif mech == "restarted-after-cancel":
+                viol("restarted-after-cancel:command-survives-stop",
+                     "[%s] (%s %s) %s" % (", ".join(sorted(sy)), delivery, kind, "; ".join(sy[k] for k in sorted(sy))))
+            elif mech.startswith("leftover-of-earlier-run"):
+                info["leftover_suppressed"].append(mech.split("=", 1)[1])
             else:
                 for name in sorted(sy):
                     viol("not-cancelled:%s:%s" % (kind, name), sy[name])
+        for tk, _w in checks:
+            for _n, iid in tk.inst:
+                if iid not in leaked_earlier:
+                    m = cause(iid)
+                    leaked_earlier[iid] = m + ((":" + delivery) if m == "started-after-cancel" else "")
         leaked = bool(symptoms)
         if leaked:
             info["derived_suppressed"] += 1
+            info["suppressed_by"].extend("%s%s" % (m.split("=")[-1], (":" + delivery) if m == "started-after-cancel" else "")
+                                         for m in sorted(symptoms))
         if old_in_new is not None and not leaked:
             viol("callback-after-stop:%s:old-instance-in-new-run" % kind, old_in_new)
         # (4) simulations cleared, (5) run id cleared
@@ -354,8 +383,12 @@ def run_shard(col, cfg):
                     classes.append("tick-raised(judged-by-C13)")
                 col.count("count:uod-instances-checked-in-runlog", info["uod_in_runlog"])
                 col.count("count:restart-ticks-compared", info["compared_ticks"])
-                if info["derived_suppressed"]:
-                    col.count("excluded_known:symptoms-attributed-to-leaked-instance")
+                for m in sorted(set(info["leftover_suppressed"])):
+                    col.count("excluded_known:instance-leaked-at-an-earlier-run-end-under:%s" % m)
+                for m in sorted(set(info["suppressed_by"])):
+                    # derived symptoms (old instance in the new run, restart differing) are not judged separately when the
+                    # mechanism signature named here is emitted for the same stop; the mechanism signature itself IS emitted
+                    col.count("excluded_known:derived-symptoms-attributed-to:%s" % m)
                 col.record(case, nontrivial, classes=classes, violations=vs,
                            sample={"method": tr.lines, "ops": case["ops"], "n_ticks": case["n_ticks"],
                                    "stops": info["stop_kinds"]})
